@@ -12,8 +12,8 @@ import (
 	"github.com/spikeekips/mitum/network/quicstream"
 )
 
-// stressRecursiveRLock looks for the lock-order defect the lock model of
-// Handover.tla (XLockModel) finds: isReadyToFinish holds the read lock of
+// stressRecursiveRLock looks for the lock-order defect spec/HandoverLock.tla
+// finds: isReadyToFinish holds the read lock of
 // successcount (Locked.Get) and, inside it, isReady takes the same read lock
 // again (Locked.Value); with a writer (Receive -> Locked.Set) queued between
 // the two, sync.RWMutex blocks the second RLock forever.
@@ -22,8 +22,9 @@ import (
 // consensus handler of X does), another one Receive (what the network handler
 // of X does). The verdict is not a time-out: the run is reported as a deadlock
 // only if the goroutine dump shows sendVoteproof blocked in RWMutex.RLock under
-// isReady <- isReadyToFinish and Receive blocked in RWMutex.Lock under
-// Locked.Set. Not seeing it within the budget means nothing.
+// isReady <- isReadyToFinish and every Receive goroutine blocked in
+// RWMutex.Lock under Locked.Set (nobody is left who could release the lock).
+// Not seeing it within the budget means nothing.
 type stressResult struct {
 	Rounds     int    `json:"rounds"`
 	SendCalls  uint64 `json:"send_calls"`
@@ -35,9 +36,7 @@ type stressResult struct {
 	ElapsedMS  int64  `json:"elapsed_ms"`
 }
 
-func stressRecursiveRLock(budget time.Duration, rounds int) (stressResult, error) {
-	var res stressResult
-
+func stressRecursiveRLock(budget time.Duration, rounds int) (res stressResult, _ error) {
 	started := time.Now()
 	defer func() { res.ElapsedMS = time.Since(started).Milliseconds() }()
 
@@ -85,7 +84,7 @@ func stressRecursiveRLock(budget time.Duration, rounds int) (stressResult, error
 			}
 		}()
 
-		for i := 0; i < 3; i++ {
+		for i := 0; i < receivers; i++ {
 			go func() {
 				for !stop.Load() {
 					_ = x.Receive(stray)
@@ -112,8 +111,10 @@ func stressRecursiveRLock(budget time.Duration, rounds int) (stressResult, error
 
 			if stalls >= 10 { // 200 ms without one call returning: look at the stacks
 				res.Stalled = true
-				res.SendFrame, res.RecvFrame = lockFrames()
-				res.Deadlocked = res.SendFrame != "" && res.RecvFrame != ""
+				var nrecvBlocked int
+
+				res.SendFrame, res.RecvFrame, nrecvBlocked = lockFrames()
+				res.Deadlocked = res.SendFrame != "" && nrecvBlocked == receivers
 
 				break
 			}
@@ -133,11 +134,13 @@ func stressRecursiveRLock(budget time.Duration, rounds int) (stressResult, error
 	return res, nil
 }
 
+const receivers = 3
+
 var reGoroutine = regexp.MustCompile(`(?m)^goroutine \d+ \[`)
 
 // lockFrames reads the goroutine dump: (frame of sendVoteproof blocked in the
 // nested RLock, frame of Receive blocked in Lock), empty if not found.
-func lockFrames() (send, recv string) {
+func lockFrames() (send, recv string, nrecv int) {
 	buf := make([]byte, 1<<22)
 	buf = buf[:runtime.Stack(buf, true)]
 
@@ -158,8 +161,9 @@ func lockFrames() (send, recv string) {
 		case strings.Contains(g, "sync.(*RWMutex).Lock") &&
 			strings.Contains(g, "HandoverXBroker).Receive"):
 			recv = "Receive > Locked.Set > RWMutex.Lock (blocked, queued before the second RLock)"
+			nrecv++
 		}
 	}
 
-	return send, recv
+	return send, recv, nrecv
 }
